@@ -91,12 +91,87 @@ def run(rep, model, tier, seed, broken=()):
             if nbad <= 3:
                 rep.violation(dict(kind="confinement: " + prob["what"], diff=prob, argv=tr.argv,
                                    case=treeh.case_json(case), tree=ct.describe(case)))
+    nbad += symlink_stage(rep, rng, 4 if tier == "quick" else 40)
     rep.coverage["disagreements"] = nbad
     rep.coverage["correspondence"]["file-system effects and stdout: cminx.main vs Model.Walk actions"] = len(cases)
     rep.sample(ct.describe(cases[-1]))
 
 
+def symlink_stage(rep, rng, n):
+    """Symbolic links are not part of the tree model (DESIGN 7, C13-C15 gap), but the confinement
+    property is about the real file system: a symlinked *.cmake file whose target lies outside the
+    input directory, and an input directory reached through a symlink, must still put every page
+    inside the output directory and nowhere else (implementation-only snapshot oracle)."""
+    import contextlib
+    import io
+    import shutil
+    import cminx
+    bad = 0
+    for i in range(n):
+        root = core.scratch_dir("cminx_c18_links_")
+        try:
+            os.makedirs(os.path.join(root, "shared"))
+            os.makedirs(os.path.join(root, "proj", "sub"))
+            os.makedirs(os.path.join(root, "realproj", "v2"))
+            os.makedirs(os.path.join(root, "links"))
+            body = treeh.simple_module(rng, "f")
+            open(os.path.join(root, "shared", "toolchain.cmake"), "wb").write(body)
+            open(os.path.join(root, "proj", "a.cmake"), "wb").write(treeh.simple_module(rng, "a"))
+            open(os.path.join(root, "proj", "sub", "b.cmake"), "wb").write(treeh.simple_module(rng, "b"))
+            os.symlink(os.path.join("..", "shared", "toolchain.cmake"), os.path.join(root, "proj", "tc.cmake"))
+            open(os.path.join(root, "realproj", "v2", "hello.cmake"), "wb").write(treeh.simple_module(rng, "h"))
+            os.symlink(os.path.join("..", "realproj", "v2"), os.path.join(root, "links", "proj2"))
+            scenarios = [("symlinked file in the input directory", os.path.join(root, "proj"),
+                          {"index.rst", "a.rst", "tc.rst", os.path.join("sub", "index.rst"), os.path.join("sub", "b.rst")}),
+                         ("input directory reached through a symlink", os.path.join(root, "links", "proj2"),
+                          {"index.rst", "hello.rst"})]
+            for label, inp, want in scenarios:
+                out = os.path.join(root, "out_" + str(len(label)))
+                os.makedirs(out)
+                open(os.path.join(out, "unrelated.txt"), "w").write("keep me")
+                before = treeh.snapshot(root)
+                status = 0
+                try:
+                    with contextlib.redirect_stdout(io.StringIO()), contextlib.redirect_stderr(io.StringIO()):
+                        cminx.main([inp, "-r", "-o", out])
+                except SystemExit as e:
+                    status = e.code if isinstance(e.code, int) else 1
+                except BaseException as e:
+                    status = "%s: %s" % (type(e).__name__, str(e)[:100])
+                import logging
+                logging.disable(logging.CRITICAL)
+                after = treeh.snapshot(root)
+                rel_out = os.path.relpath(out, root)
+                changed = [k for k in after if before.get(k, "absent") != after[k]]
+                removed = [k for k in before if k not in after]
+                outside = [k for k in changed if not (k[1] == rel_out or k[1].startswith(rel_out + os.sep))]
+                got = {os.path.relpath(k[1], rel_out) for k in changed if k[0] == "f" and k[1].startswith(rel_out + os.sep)}
+                rep.count_case(("symlink", label, i), True)
+                rep.dist("io:symlink scenarios")
+                prob = None
+                if status != 0:
+                    prob = dict(what="run failed", status=status)
+                elif outside or removed:
+                    prob = dict(what="a path outside the output directory was created, modified or removed",
+                                outside=[list(k) for k in outside][:5], removed=[list(k) for k in removed][:5])
+                elif got != want:
+                    prob = dict(what="pages in the output directory differ from the expected set",
+                                missing=sorted(want - got), extra=sorted(got - want))
+                if prob:
+                    bad += 1
+                    if bad <= 2:
+                        rep.violation(dict(kind="confinement (symbolic links): " + prob["what"], scenario=label, diff=prob,
+                                           argv=[inp, "-r", "-o", out], oracle="symlink"))
+        finally:
+            shutil.rmtree(root, ignore_errors=True)
+    return bad
+
+
 def replay(obj):
+    if obj.get("oracle") == "symlink":
+        print(json.dumps(obj, indent=1)[:2000])
+        rep = core.Report("C18", "quick", 0)
+        return 1 if symlink_stage(rep, core.rng_for(0, "C18", "replay"), 1) else 0
     model = core.Model()
     case = treeh.case_from_json(obj["case"])
     tr, ir, mv, _ = treeh.run_case(model, case)
